@@ -488,7 +488,7 @@ class StoreFilter(Case):
     def all_props(self):
         return {"C19"}
 
-    def one(self, inc, exc):
+    def one(self, inc, exc, ids="plain"):
         import numpy as np
 
         from pyvc import replay
@@ -497,7 +497,10 @@ class StoreFilter(Case):
         rs = replay.real_module("ioos_qc.results")
         fns = {"f1": len, "f2": abs}
         crs = []
-        for k, (sid, t, fn) in enumerate((("a", "t1", "f1"), ("a", "t2", "f2"), ("b", "t1", "f2"))):
+        # ids="meta": stream ids and test names made of characters that mean something to glob / regex matching -
+        # include and exclude compare names for equality
+        triples = (("a", "t1", "f1"), ("a", "t2", "f2"), ("b", "t1", "f2")) if ids == "plain" else (("a[1]", "t1", "f1"), ("a[1]", "t*2", "f2"), ("b?", "t1", "f2"))
+        for k, (sid, t, fn) in enumerate(triples):
             crs.append(rs.CollectedResult(stream_id=sid, package="qartod", test=t, function=fns[fn], results=np.ma.array([k + 1, k + 2], dtype="uint8"), data=np.array([1.0, 2.0]), tinp=np.array([0, 1], dtype="datetime64[s]"), zinp=np.array([]), lat=np.array([]), lon=np.array([])))
         conv = lambda lst: None if lst is None else [fns.get(x, x) for x in lst]  # noqa: E731
         store = st.PandasStore.__new__(st.PandasStore)
@@ -522,9 +525,13 @@ class StoreFilter(Case):
         for inc in lists:
             for exc in lists:
                 yield ("include=%s|exclude=%s" % (inc, exc), "filter", {"include": inc, "exclude": exc}, (lambda i=inc, x=exc: self.one(i, x)))
+        lists = [None, ["a[1]"], ["t*2"], ["b?"], ["a*"], ["t1", "b?"], ["a[1]", "f2"]]
+        for inc in lists:
+            for exc in lists:
+                yield ("include=%s|exclude=%s|meta" % (inc, exc), "filter", {"include": inc, "exclude": exc, "ids": "meta"}, (lambda i=inc, x=exc: self.one(i, x, "meta")))
 
     def replay_bounded(self, label, values):
-        return self.one(values["include"], values["exclude"])
+        return self.one(values["include"], values["exclude"], values.get("ids", "plain"))
 
 
 class StoreEndToEnd(Case):
